@@ -108,6 +108,14 @@ func randomScenario(rng interface{ Intn(int) int }, n int) (Cfg, Faults, int) {
 	}
 	c.Chan = rng.Intn(3)
 	c.Cont = rng.Intn(2) == 0
+	// one scenario in five is signer lag for certain: continuous rounds over a growing source while the signer sleeps
+	lagSure := n%5 == 2
+	if lagSure {
+		c.Cont = true
+		if c.Growth == 0 {
+			c.Growth = 1 + rng.Intn(3)
+		}
+	}
 	if !c.Cont && rng.Intn(2) == 0 {
 		c.Start = -1
 	}
@@ -173,6 +181,9 @@ func randomScenario(rng interface{ Intn(int) int }, n int) (Cfg, Faults, int) {
 	nf := rng.Intn(4)
 	if n%5 == 0 {
 		nf = 0
+	}
+	if lagSure && nf > 1 {
+		nf = 1 // let the rounds happen
 	}
 	for k := 0; k < nf; k++ {
 		pass := 1 + rng.Intn(2)
@@ -244,6 +255,20 @@ func randomScenario(rng interface{ Intn(int) int }, n int) (Cfg, Faults, int) {
 			f.Env[ek] = append(f.Env[ek], "integrate")
 		}
 	}
+	// the signer's schedule (Cfg.Lag): in one scenario out of three - and in the lag scenarios for certain - the signer
+	// sleeps through the first root requests, so that whole rounds of a continuous run begin with the root behind what
+	// was submitted; the source grows at the quiescent points between the rounds (driver) and, in the lag scenarios, also
+	// while the first round is under way, so that the very next round finds new entries and a root that has not moved
+	switch {
+	case lagSure:
+		c.Lag = 2 + rng.Intn(4)
+		if rng.Intn(3) > 0 {
+			ek := fmt.Sprintf("1:%d", 3+rng.Intn(3))
+			f.Env[ek] = append(f.Env[ek], "grow")
+		}
+	case rng.Intn(3) == 0:
+		c.Lag = 1 + rng.Intn(5)
+	}
 	return c, f, restarts
 }
 
@@ -266,7 +291,7 @@ func TestTrace(t *testing.T) {
 	}
 	rep := vh.NewReport("c20-trace", "random scenarios (source sizes/growth/unparsable entries, destination empty/partial/full, batch, fetchers, submitters, one-shot/continuous, Run/RunWhenMaster, honest/forked source, counted fault scripts) on the real Controller under synctest virtual time and -race; every AddSequencedLeaves request and the final destination map judged index by index against the source by reference code; traces validated by MigrillianTrace.tla; non-trivial = distinct set of observed behaviour kinds")
 	rng := vh.Rand(2020)
-	nq, emptyPages, emptyAdds, endBeyond, rangePasses := 0, 0, 0, 0, 0
+	nq, emptyPages, emptyAdds, endBeyond, rangePasses, lagRounds, lagEntries := 0, 0, 0, 0, 0, 0, 0
 	scen := map[string]any{}
 	for i := 0; i < n; i++ {
 		c, f, restarts := randomScenario(rng, i)
@@ -313,6 +338,8 @@ func TestTrace(t *testing.T) {
 		emptyAdds += w.emptyAdds
 		endBeyond += w.endBeyond
 		rangePasses += w.rangePasses
+		lagRounds += w.lagRounds
+		lagEntries += w.lagEntries
 		if i < 3 {
 			rep.Sample(map[string]any{"cfg": c, "faults": f})
 		}
@@ -323,6 +350,8 @@ func TestTrace(t *testing.T) {
 	rep.Extra["empty_requests_refused"] = emptyAdds
 	rep.Extra["passes_end_index_beyond_sth_source_ahead"] = endBeyond
 	rep.Extra["passes_with_configured_range"] = rangePasses
+	rep.Extra["rounds_root_behind_position_source_grown"] = lagRounds
+	rep.Extra["entries_not_integrated_at_such_rounds"] = lagEntries
 	if b, err := json.Marshal(scen); err == nil {
 		_ = os.WriteFile(vh.OutDir()+"/scenarios.json", b, 0o644)
 	}
@@ -336,10 +365,10 @@ func TestTrace(t *testing.T) {
 // Beh is one behaviour exported by SimMigrillian.tla.
 type Beh struct {
 	Cfg struct {
-		Src0, Growth, Ahead, DestLen, DestInt, Batch, Fetchers, Submitters, Start, End, ForkAt int
-		Bad                                                                        []int
-		Cont, Forked                                                               bool
-		Mode                                                                       string
+		Src0, Growth, Ahead, DestLen, DestInt, Batch, Fetchers, Submitters, Start, End, ForkAt, Lag int
+		Bad                                                                                         []int
+		Cont, Forked                                                                                bool
+		Mode                                                                                        string
 	} `json:"cfg"`
 	Hist []struct {
 		Ev     string `json:"ev"`
@@ -364,7 +393,7 @@ type Beh struct {
 func schedule(b Beh, idx int) (c Cfg, f Faults, restarts int, clean bool, covered bool) {
 	c = Cfg{Src0: b.Cfg.Src0, Growth: b.SrcSize - b.Cfg.Src0, Ahead: b.Cfg.Ahead, End: b.Cfg.End, Bad: append([]int{}, b.Cfg.Bad...), DestLen: b.Cfg.DestLen, DestInt: b.Cfg.DestInt,
 		Batch: b.Cfg.Batch, Fetchers: b.Cfg.Fetchers, Submitters: b.Cfg.Submitters, Chan: idx % 3, Cont: b.Cfg.Cont, Start: b.Cfg.Start,
-		Forked: b.Cfg.Forked, ForkAt: b.Cfg.ForkAt, IDFunc: []string{"cert", "index"}[idx%2], Mode: b.Cfg.Mode}
+		Forked: b.Cfg.Forked, ForkAt: b.Cfg.ForkAt, IDFunc: []string{"cert", "index"}[idx%2], Mode: b.Cfg.Mode, Lag: b.Cfg.Lag}
 	f.init()
 	f.Replay = true
 	f.RootAt, f.SizeAt = map[string]int{}, map[string]int{}
@@ -454,7 +483,7 @@ func TestReplay(t *testing.T) {
 		t.Fatal(err)
 	}
 	rep := vh.NewReport("c20-replay", "behaviours of Migrillian.tla (TLC simulation: scenario + environment choices) replayed as counted fault schedules into the real Controller; monitors on every request; for schedules without cancellation / lost mastership / fatal faults the return class, the destination domain and the consumption of the whole schedule are compared with the specification's behaviour; non-trivial = distinct set of behaviour kinds")
-	nclean, emptyPages, emptyAdds, endBeyond, rangePasses := 0, 0, 0, 0, 0
+	nclean, emptyPages, emptyAdds, endBeyond, rangePasses, lagRounds, lagEntries := 0, 0, 0, 0, 0, 0, 0
 	for i, b := range behs {
 		c, f, restarts, clean, covered := schedule(b, i)
 		sub := vh.NewReport("tmp", "")
@@ -508,6 +537,8 @@ func TestReplay(t *testing.T) {
 		emptyAdds += w.emptyAdds
 		endBeyond += w.endBeyond
 		rangePasses += w.rangePasses
+		lagRounds += w.lagRounds
+		lagEntries += w.lagEntries
 		if i < 2 {
 			rep.Sample(map[string]any{"cfg": c, "faults": f})
 		}
@@ -518,6 +549,8 @@ func TestReplay(t *testing.T) {
 	rep.Extra["empty_requests_refused"] = emptyAdds
 	rep.Extra["passes_end_index_beyond_sth_source_ahead"] = endBeyond
 	rep.Extra["passes_with_configured_range"] = rangePasses
+	rep.Extra["rounds_root_behind_position_source_grown"] = lagRounds
+	rep.Extra["entries_not_integrated_at_such_rounds"] = lagEntries
 	rep.Extra["clean"] = nclean
 	if err := rep.Write(); err != nil {
 		t.Fatal(err)
